@@ -1198,10 +1198,22 @@ def exec_choice(case):
     if hk != api or hv != rs.API_VERSION:
         out.fail("version_choice", bname + ":header_version", {"header": [hk, hv], "struct": sname})
     try:
-        codec.decode_request(frame)
+        _hdr, _body = codec.decode_request(frame)
     except codec.RefProtoError as e:
+        _body = None
         out.fail("layout", bname + ":built", {"struct": sname, "variant": case["variant"], "wire_version": hv,
                                               "error": str(e), "frame": _hex(frame)})
+    if _body is not None:
+        # every scalar argument of the builder that the chosen version has a field of the same name for sits in
+        # that field (a builder branch that puts an argument into its neighbour's slot still yields a decodable frame)
+        for k, v in _kwargs(case["kwargs"]).items():
+            if k in _body and (v is None or isinstance(v, (int, str, bool))) and not isinstance(_body[k], (list, dict)):
+                got = _body[k]
+                if isinstance(v, bool) or isinstance(got, bool):
+                    got, v = bool(got), bool(v)
+                if got != v:
+                    out.fail("layout", bname + ":built_value:" + k, {"struct": sname, "variant": case["variant"],
+                                                                    "wire_version": hv, "argument": v, "on_the_wire": got})
     pp = _pairing_problem(sname, type(rs))
     if pp:
         out.fail("reply_pairing", sname, pp)
